@@ -51,6 +51,7 @@ fn automerge_edge(enc: TextEncoding) -> Box<crate::world::EdgeOracle> {
                     return Err(Violation::new("logged-transaction-same-change", "heads", "the same edit with a patch log produced a different change"));
                 }
             }
+            HAct::Churn(_) => {}
             HAct::Merge(r, q) => {
                 let before = View::of_doc(&s.docs[*r], None, enc);
                 // merge_and_log_patches
